@@ -52,9 +52,9 @@ def decBool (s : String) : Option Bool :=
 
 def decVariant (s : String) : Option Variant :=
   match s.toList with
-  | [a, b, c, d, e] => do
+  | [a, b, c, d, e, g] => do
     let f (ch : Char) : Option Bool := if ch == '1' then some true else if ch == '0' then some false else none
-    pure ⟨← f a, ← f b, ← f c, ← f d, ← f e⟩
+    pure ⟨← f a, ← f b, ← f c, ← f d, ← f e, ← f g⟩
   | _ => none
 
 def dropS (s : String) (n : Nat) : String := String.ofList (s.toList.drop n)
